@@ -717,6 +717,17 @@ pub fn run_parent(p: &dyn Property, tier: Tier) -> RunResult {
     RunResult { exit }
 }
 
+/// Monitors that skip open known findings and keep checking (history properties) ask this; in
+/// strict mode (witness replay, `--replay`) nothing is skipped so the true key surfaces.
+pub fn skip_known(property: &str, key: &str) -> bool {
+    use std::sync::OnceLock;
+    static K: OnceLock<known::Known> = OnceLock::new();
+    if std::env::var("VERIF_STRICT").map(|v| v == "1").unwrap_or(false) {
+        return false;
+    }
+    K.get_or_init(known::load).is_open(property, key)
+}
+
 pub enum ReplayOutcome {
     Pass,
     Fail(String, String),
@@ -725,7 +736,7 @@ pub enum ReplayOutcome {
 
 /// run one saved case in a child process (so that aborts are observable)
 pub fn replay_in_child(exe: &Path, id: &str, file: &Path) -> ReplayOutcome {
-    let out = Command::new(exe).arg("--replay-child").arg(id).arg(file).stdin(Stdio::null()).output();
+    let out = Command::new(exe).arg("--replay-child").arg(id).arg(file).env("VERIF_STRICT", if std::env::var("VERIF_LENIENT").is_ok() { "0" } else { "1" }).stdin(Stdio::null()).output();
     match out {
         Err(e) => ReplayOutcome::Infra(format!("spawn: {}", e)),
         Ok(o) => {
